@@ -984,6 +984,8 @@ func (x *Exec) rangeStmt(st *State, s *ast.RangeStmt, label string) Flow {
 		return x.rangeIndexed(st, s, label, ls, id, u)
 	case *types.Map:
 		return x.rangeMap(st, s, label, ls, id, u)
+	case *types.Chan:
+		return x.rangeChan(st, s, label, ls, id, u)
 	}
 	x.unsup(s.Pos(), "range over %s", rt)
 	return Flow{}
@@ -1188,6 +1190,35 @@ func (x *Exec) rangeMap(st *State, s *ast.RangeStmt, label string, ls *LoopSpec,
 		return f
 	}
 	return x.cutLoopWith(st, ls, id, label, []ast.Node{s.Body}, cond, body, s.Pos(), nil, []types.Object{visObj}, s)
+}
+
+// rangeChan: `for v := range ch`. Channels are not modelled: the loop runs an
+// unknown number of times and each element is an arbitrary value of the
+// element type (over-approximation; what the sender sent is not known).
+func (x *Exec) rangeChan(st *State, s *ast.RangeStmt, label string, ls *LoopSpec, id string, ch *types.Chan) Flow {
+	if ls == nil {
+		ls = &LoopSpec{}
+		x.vc.abstractedLoops = append(x.vc.abstractedLoops, x.vc.fn+" loop "+id+" (range over a channel: elements arbitrary)")
+	}
+	x.expr(st, s.X)
+	cond := func(sH *State) Term { return x.vc.fresh("more", "Bool") }
+	body := func(sB *State) Flow {
+		if s.Key != nil {
+			ev := Value{T: x.vc.fresh("chanelem", x.vc.sortOf(ch.Elem())), Ty: ch.Elem()}
+			x.vc.assumeFacts(sB, ev.T, ev.Ty)
+			x.defineLoopVar(sB, s.Key, ev)
+		}
+		f := x.block(sB, s.Body.List)
+		nx := append([]*State{f.next}, f.conts...)
+		if label != "" {
+			nx = append(nx, f.lconts[label]...)
+			delete(f.lconts, label)
+		}
+		f.conts = nil
+		f.next = x.vc.mergeStates(nx)
+		return f
+	}
+	return x.cutLoop(st, ls, id, label, []ast.Node{s.Body}, cond, body, s.Pos(), nil)
 }
 
 func (x *Exec) labeled(st *State, s *ast.LabeledStmt) Flow {
